@@ -1,4 +1,5 @@
 //! vmon: the shared library of the pest runtime monitors.
+pub mod c02;
 pub mod errcheck;
 pub mod gen;
 pub mod inputs;
